@@ -115,3 +115,26 @@ def eval_outcome(make_top, group, state):
     d = sorted(n for n in before if before[n] != after[n])
     if d: return f"not a fixed point: re-running {_key(top, b)} changes {d[:4]}"
   return 'fixed point'
+
+
+def executed_order(top):
+  """keys of the combinational / net blocks in the order one sim_eval_combinational() of the pristine simulator calls them
+  (profile hook on the blocks' code objects: works for every pass group, generated tick functions included)"""
+  import sys
+  codes = {b.__code__: _key(top, b) for b in top._dag.final_upblks}
+  order = []
+  def prof(frame, event, arg):
+    if event == 'call' and frame.f_code in codes: order.append(codes[frame.f_code])
+  sys.setprofile(prof)
+  try: top.sim_eval_combinational()
+  finally: sys.setprofile(None)
+  return order
+
+
+def explicit_order_violated(make_top, group, first, second):
+  from vlib.ffreplay import apply_group
+  top = make_top(); apply_group(top, group)
+  order = executed_order(top)
+  if first in order and second in order and order.index(first) > order.index(second):
+    return f"pass group {group} runs {second} before {first} although an explicit constraint demands {first} first (executed order {order})"
+  return None
